@@ -143,6 +143,23 @@ def _(rng, w):
     x = _x(rng, w)
     return rng.choice([("xor", ("bvv", 0, w), x), ("xor", x, ("bvv", 0, w)), ("xor", x, x),
                        ("xor", ("xor", x, _x(rng, w)), x), ("xor", x, _c(rng, w), x, _c(rng, w))])
+@T("F.flatten_shared_leaves")
+def _(rng, w):
+    """nested trees of one associative operation whose sub-trees share their leaves in permuted order, so that the flattening
+    simplifiers cancel (xor), absorb (and/or) or collect (add/mul) across sub-trees: (a ^ b) ^ (b ^ a), (a & b) & (b & a), ..."""
+    op = rng.choice(["xor", "xor", "and", "or", "add", "mul"])
+    leaves = [var(rng, w, "x"), var(rng, w, "y")] + rng.choice([[], [var(rng, w, "z")], [_c(rng, w)], [_c(rng, w), var(rng, w, "z")]])
+
+    def side():
+        k = rng.randrange(2, len(leaves) + 1)
+        return (op,) + tuple(rng.sample(leaves, k))
+    l, r = side(), side()
+    if rng.random() < 0.5:
+        r = (op,) + tuple(rng.sample(l[1:], len(l) - 1))         # exactly the same leaves, another order
+    t = (op, l, r)
+    if rng.random() < 0.3:
+        t = (op, t, rng.choice(leaves + [side()]))
+    return t
 @T("X4.xor_minmax")
 def _(rng, w):
     q, r = var(rng, w, "x"), var(rng, w, "y")
